@@ -454,11 +454,43 @@ def _intr_ctpop(ex, f, a):
     return simp(t)
 
 
+def _intr_raw_eq(ex, f, a):
+    """core::intrinsics::raw_eq::<[u8; N]>(&a, &b): what `==` on byte arrays compiles to"""
+    m = re.search(r'::<\[u8; (\d+)(?:_usize)?\]>$', f['name'])
+    if not m:
+        raise EngineError('raw_eq on a type other than [u8; N]: ' + f['name'])
+    n = int(m.group(1))
+
+    def byte(v, i):
+        if isinstance(v, SrcPtr):
+            return ex.load_src(ex.add_off(v.off, i), v.limit)     # bounds obligation and read log per byte
+        if isinstance(v, ConstBytes):
+            return v.data[i]
+        if isinstance(v, Ref):
+            arr = v.cell.val
+            for k in v.path:
+                arr = arr.fields[k]
+            if not isinstance(arr, Agg) or len(arr.fields) != n:
+                raise EngineError('raw_eq: referent is not an array of %d bytes' % n)
+            return arr.fields[i]
+        raise EngineError(f'raw_eq operand {v!r}')
+
+    conds = []
+    for i in range(n):
+        x, y = byte(a[0], i), byte(a[1], i)
+        if isinstance(x, int) and isinstance(y, int):
+            if x != y:
+                return False
+            continue
+        conds.append(simp(as_bv(x, 8) == as_bv(y, 8)))
+    return s_and(*conds) if conds else True
+
+
 _INTRINSICS = {
     'cold_path': _intr_cold_path,
     'likely': _intr_identity, 'unlikely': _intr_identity, 'black_box': _intr_identity,
     'assert_inhabited': _intr_unit, 'assert_zero_valid': _intr_unit, 'assert_mem_uninitialized_valid': _intr_unit,
-    'ctpop': _intr_ctpop,
+    'ctpop': _intr_ctpop, 'raw_eq': _intr_raw_eq,
 }
 for _n in ('saturating_sub', 'saturating_add', 'wrapping_add', 'wrapping_sub', 'wrapping_mul', 'unchecked_add', 'unchecked_sub',
            'unchecked_mul'):
